@@ -647,10 +647,18 @@ class BodyPartReader:
         if encoding == "identity":
             return data
         if encoding in {"deflate", "gzip"}:
-            return ZLibDecompressor(
+            d = ZLibDecompressor(
                 encoding=encoding,
                 suppress_deflate_header=True,
-            ).decompress_sync(data, max_length=self._max_decompress_size)
+            )
+            # One call yields at most max_decompress_size bytes: go on until
+            # everything is out, as the async variant does.
+            chunks = [d.decompress_sync(data, max_length=self._max_decompress_size)]
+            while d.data_available:
+                chunks.append(
+                    d.decompress_sync(b"", max_length=self._max_decompress_size)
+                )
+            return b"".join(chunks)
 
         raise RuntimeError(f"unknown content encoding: {encoding}")
 
